@@ -745,6 +745,99 @@ fn write_workload(version: Version, ctl: Arc<Ctl>) -> WriteRun {
     run
 }
 
+/// C13, structural calls that the library orders so that a failure can only leak space (cut the chain first,
+/// then free; allocate first, then link): a fault at every underlying call position inside ONE resize of a
+/// regular stream, the call retried, another stream written and flushed in between.  Whatever the
+/// failed call left behind, a flush that returns Ok afterwards is durable: at the end both streams are
+/// read through fresh handles and through the reopened bytes.
+fn resize_under_fault(version: Version, from: usize, to: usize, k: Option<u64>) -> (u64, Vec<String>) {
+    let ctl = Ctl::new(false, true);
+    ctl.count_writes.store(false, Ordering::SeqCst);
+    let inner = SharedFile::new(Vec::new());
+    let file = FaultyFile { inner: inner.clone(), ctl: ctl.clone(), seek_is_read: false };
+    let mut bad = Vec::new();
+    let mut comp = CompoundFile::create_with_version(version, file).unwrap();
+    let a = pattern(from, 41);
+    let b = pattern(6000, 42);
+    let mut s = comp.create_stream("/a").unwrap();
+    s.write_all(&a).unwrap();
+    s.flush().unwrap();
+    // the resize under fault
+    ctl.count_writes.store(true, Ordering::SeqCst);
+    if let Some(k) = k {
+        ctl.fail_a.store(k, Ordering::SeqCst);
+    }
+    let first = s.set_len(to as u64);
+    let n_calls = ctl.calls.load(Ordering::SeqCst);
+    ctl.count_writes.store(false, Ordering::SeqCst);
+    if first.is_ok() && ctl.fired.load(Ordering::SeqCst) > 0 {
+        bad.push("set_len returned Ok although an underlying call failed during it (error swallowed)".to_string());
+    }
+    // another stream in between (no faults any more)
+    let b_ok = comp.create_stream("/b").and_then(|mut t| { t.write_all(&b)?; t.flush() }).is_ok();
+    // the retry, and a flush
+    let second = if first.is_err() { s.set_len(to as u64) } else { Ok(()) };
+    let a_ok = second.is_ok() && s.flush().is_ok();
+    drop(s);
+    let mut want_a = a.clone();
+    want_a.resize(to, 0);
+    let read = |c: &mut dyn FnMut(&str) -> std::io::Result<Vec<u8>>, what: &str, bad: &mut Vec<String>| {
+        if b_ok {
+            match c("/b") {
+                Ok(v) if v == b => {}
+                Ok(v) => bad.push(format!("the other stream's flush returned Ok but {} gives {} bytes (expected {}), first difference at {:?}", what, v.len(), b.len(), v.iter().zip(b.iter()).position(|(x, y)| x != y))),
+                Err(e) => bad.push(format!("the other stream's flush returned Ok but {} cannot read it: {}", what, err_kind(&e))),
+            }
+        }
+        if a_ok {
+            match c("/a") {
+                Ok(v) if v == want_a => {}
+                Ok(v) => bad.push(format!("set_len (retried) and flush returned Ok but {} gives {} bytes for the resized stream (expected {}), first difference at {:?}", what, v.len(), want_a.len(), v.iter().zip(want_a.iter()).position(|(x, y)| x != y))),
+                Err(e) => bad.push(format!("set_len (retried) and flush returned Ok but {} cannot read the resized stream: {}", what, err_kind(&e))),
+            }
+        }
+    };
+    read(&mut |p| { let mut v = Vec::new(); comp.open_stream(p).and_then(|mut f| f.read_to_end(&mut v))?; Ok(v) }, "a fresh handle", &mut bad);
+    let bytes = inner.snapshot();
+    match CompoundFile::open(std::io::Cursor::new(bytes)) {
+        Ok(mut c2) => read(&mut |p| { let mut v = Vec::new(); c2.open_stream(p).and_then(|mut f| f.read_to_end(&mut v))?; Ok(v) }, "the reopened file", &mut bad),
+        Err(e) => if a_ok || b_ok { bad.push(format!("flushes returned Ok but the file's bytes do not reopen: {}", err_kind(&e))) },
+    }
+    (n_calls, bad)
+}
+
+fn structural_campaign() -> u64 {
+    let mut evaluations = 0;
+    for version in [Version::V3, Version::V4] {
+        // shrink within the regular range (free_chain_after), grow (extend_chain), both in whole sectors and not
+        for (from, to) in [(9000usize, 5000usize), (20000, 4096), (16384, 8192), (5000, 9000), (4096, 30000)] {
+            let (n, bad0) = resize_under_fault(version, from, to, None);
+            for b in bad0 {
+                println!("ORACLE resize {}->{} (V{}) without any fault: {}", from, to, if version == Version::V3 { 3 } else { 4 }, b);
+            }
+            for k in 0..n {
+                evaluations += 1;
+                let (tx, rx) = std::sync::mpsc::channel();
+                std::thread::spawn(move || {
+                    let r = catch(|| resize_under_fault(version, from, to, Some(k)));
+                    let _ = tx.send(r);
+                });
+                let v = if version == Version::V3 { 3 } else { 4 };
+                match rx.recv_timeout(std::time::Duration::from_secs(20)) {
+                    Err(_) => println!("ORACLE set_len {}->{} (V{}) with a fault at its underlying write/seek/flush call {}: no progress within 20 s (hang)", from, to, v, k),
+                    Ok(Err(m)) => println!("ORACLE set_len {}->{} (V{}) with a fault at its underlying write/seek/flush call {}: panic: {}", from, to, v, k, m.chars().take(160).collect::<String>()),
+                    Ok(Ok((_, bad))) => {
+                        for b in bad.iter().take(2) {
+                            println!("ORACLE set_len {}->{} (V{}) with a fault at its underlying write/seek/flush call {}, retried, another stream written in between: {}", from, to, v, k, b);
+                        }
+                    }
+                }
+            }
+        }
+    }
+    evaluations
+}
+
 pub fn write_campaign(seed: u64, max_runs: u64, ops_path: &str, impl_path: &str) {
     let mut rng = Rng::new(seed);
     if let Ok(k) = std::env::var("VERIF_DEBUG_K") {
@@ -828,6 +921,9 @@ pub fn write_campaign(seed: u64, max_runs: u64, ops_path: &str, impl_path: &str)
             }
         }
     }
+    let structural = structural_campaign();
+    println!("STAT structural_resizes {}", structural);
+    evaluations += structural;
     println!("STAT evaluations {}", evaluations);
     std::fs::write(ops_path, ops_out).unwrap();
     std::fs::write(impl_path, impl_out).unwrap();
